@@ -47,3 +47,74 @@ Proof.
   { unfold last_end, end_of. rewrite <- map_rev. destruct (rev l); reflexivity. }
   rewrite El. destruct (end_of 0 l =? len); reflexivity.
 Qed.
+
+(* ---- candidates that arrive in another order: Python's stable sort by start puts a list whose starts are
+        pairwise different into the one order in which the starts increase ---- *)
+From Coq Require Import Permutation.
+
+Lemma insert_perm c : forall l, Permutation (insert_stable c l) (c :: l).
+Proof.
+  induction l as [|d l IH]; [apply Permutation_refl|]. cbn [insert_stable]. destruct (cs c <=? cs d); [apply Permutation_refl|].
+  apply perm_trans with (d :: c :: l); [apply perm_skip; exact IH|apply perm_swap].
+Qed.
+
+Lemma sort_perm l : Permutation (sort_cands l) l.
+Proof.
+  induction l as [|c l IH]; [apply Permutation_refl|]. unfold sort_cands in *. cbn [fold_right].
+  apply perm_trans with (c :: fold_right insert_stable [] l); [apply insert_perm|apply perm_skip; exact IH].
+Qed.
+
+Fixpoint incr (l : list cand) : Prop :=       (* starts weakly increasing *)
+  match l with
+  | c :: ((d :: _) as r) => cs c <= cs d /\ incr r
+  | _ => True
+  end.
+
+Lemma incr_head c l : incr (c :: l) -> Forall (fun d => cs c <= cs d) l.
+Proof.
+  revert c. induction l as [|d l IH]; intros c H; [constructor|]. destruct H as [Hcd Hr]. constructor; [exact Hcd|].
+  specialize (IH d Hr). apply Forall_forall. intros x Hx. rewrite Forall_forall in IH. specialize (IH x Hx). lia.
+Qed.
+
+Lemma insert_incr c : forall l, incr l -> incr (insert_stable c l).
+Proof.
+  induction l as [|d l IH]; intros H; [exact I|]. cbn [insert_stable]. destruct (cs c <=? cs d) eqn:E.
+  - apply Z.leb_le in E. split; [exact E|exact H].
+  - apply Z.leb_gt in E. destruct l as [|e l'].
+    + cbn [insert_stable]. split; [lia|exact I].
+    + destruct H as [Hde Hr]. specialize (IH Hr). cbn [insert_stable] in *. destruct (cs c <=? cs e) eqn:E2.
+      * apply Z.leb_le in E2. split; [lia|exact IH].
+      * split; [exact Hde|exact IH].
+Qed.
+
+Lemma sort_incr l : incr (sort_cands l).
+Proof. induction l as [|c l IH]; [exact I|]. unfold sort_cands in *. cbn [fold_right]. apply insert_incr. exact IH. Qed.
+
+(* two weakly increasing lists with the same elements, whose starts are pairwise different, are equal *)
+Lemma incr_unique : forall l l', Permutation l l' -> incr l -> incr l' -> NoDup (map cs l) -> l = l'.
+Proof.
+  induction l as [|c l IH]; intros l' Hp Hi Hi' Hnd.
+  - apply Permutation_nil in Hp. subst. reflexivity.
+  - destruct l' as [|c' l'']; [apply Permutation_sym, Permutation_nil in Hp; discriminate|].
+    assert (Hc : c = c').
+    { assert (In c (c' :: l'')) by (eapply Permutation_in; [exact Hp|left; reflexivity]).
+      assert (In c' (c :: l)) by (eapply Permutation_in; [apply Permutation_sym; exact Hp|left; reflexivity]).
+      destruct H as [->|H]; [reflexivity|]. destruct H0 as [<-|H0]; [reflexivity|].
+      pose proof (incr_head c l Hi) as F1. pose proof (incr_head c' l'' Hi') as F2. rewrite Forall_forall in F1, F2.
+      specialize (F1 c' H0). specialize (F2 c H). assert (E : cs c = cs c') by lia.
+      exfalso. cbn [map] in Hnd. inversion Hnd as [|? ? Hni _]; subst. apply Hni. rewrite E. apply in_map. exact H0. }
+    subst c'. f_equal. apply IH.
+    + eapply Permutation_cons_inv. exact Hp.
+    + destruct l; [exact I|]. destruct Hi as [_ Hi]. exact Hi.
+    + destruct l''; [exact I|]. destruct Hi' as [_ Hi']. exact Hi'.
+    + cbn [map] in Hnd. inversion Hnd; assumption.
+Qed.
+
+Theorem sort_to l l' : Permutation l l' -> incr l' -> NoDup (map cs l') -> sort_cands l = l'.
+Proof.
+  intros Hp Hi Hnd. apply incr_unique.
+  - apply perm_trans with l; [apply sort_perm|exact Hp].
+  - apply sort_incr.
+  - exact Hi.
+  - apply (Permutation_NoDup (l := map cs l')); [apply Permutation_map, Permutation_sym, perm_trans with l; [apply sort_perm|exact Hp]|exact Hnd].
+Qed.
